@@ -366,6 +366,9 @@ def run_cf_in(spec, res, d, h):
         # next decode is of the values stored NOW
         try:
             vals2 = vals[::-1] + 1 if spec['form'] % 2 else vals + 1
+            # (decode, edit, decode: the decode before the edit is the same
+            # call as the one after it)
+            f.getTimes()
             f.variables['time'][:] = vals2
             want = [cf_tuple(t) for t in np.atleast_1d(cftime.num2date(
                 np.asarray(vals2, 'f8'), '%s since %s' % (
